@@ -7,6 +7,7 @@ package c20s
 import (
 	"context"
 	"encoding/json"
+	"errors"
 	"io"
 	"testing"
 	"time"
@@ -110,6 +111,21 @@ func scenarios() []e3.Scenario {
 				if g := m.DataMsgInflightCount(); g != 0 {
 					e.Violate("inflight:stuck", "every send has returned but the in-flight gauge is %d", g)
 				}
+				// each outcome changes exactly its documented counters: a T3 timeout counts one local
+				// send error, a reply or a cancelled wait none — also when the reply and the timer tie
+				t3, other := uint64(0), 0
+				for _, er := range errs {
+					switch {
+					case er == nil, errors.Is(er, context.Canceled):
+					case errors.Is(er, hsms.ErrT3Timeout):
+						t3++
+					default:
+						other++
+					}
+				}
+				if got := m.DataMsgErrCount(); other == 0 && got != t3 {
+					e.Violate("err-vs-outcome", "the two sends returned %v / %v (%d T3 timeouts, no write error) but DataMsgErrCount is %d", errs[0], errs[1], t3, got)
+				}
 				if wireData == 2 {
 					if s := m.DataMsgSendCount(); s != 2 {
 						e.Violate("send-vs-wire", "the peer received 2 data frames but DataMsgSendCount is %d", s)
@@ -124,7 +140,7 @@ func scenarios() []e3.Scenario {
 func TestCheck(t *testing.T) {
 	vfw.Main(t, "C20", func(c *vfw.Ctx) {
 		c.Level("model_checking")
-		c.Rule("E3: every schedule with <= B departures (quick 1, thorough 2) of two overlapping reply-expected senders whose transactions complete together (both replied in one segment / one replied, one cancelled by a timer / replies racing T3) on the real instrumented connection; oracle: in-flight gauge >= 0 at every scheduling point, 0 after every call returned, data-sent counter equals the frames the peer read")
+		c.Rule("E3: every schedule with <= B departures (quick 1, thorough 2) of two overlapping reply-expected senders whose transactions complete together (both replied in one segment / one replied, one cancelled by a timer / replies racing T3) on the real instrumented connection; oracle: in-flight gauge >= 0 at every scheduling point, 0 after every call returned, data-sent counter equals the frames the peer read, DataMsgErrCount equals the number of sends that returned the T3 error (a reply winning or losing the tie with T3 is counted as what the call returned)")
 		if c.Replay != nil {
 			var r e3.Replay
 			if err := json.Unmarshal(c.Replay, &r); err != nil || r.Scenario == "" {
